@@ -167,6 +167,10 @@ def run(rep) -> None:
         for literal in (False, True):
             gen.generate(doc, d / f"req{int(literal)}", literal_enums=literal)
             packages.append(d / f"req{int(literal)}")
+        comps, fam = c02.structured_families()
+        g = gen.generate(gen.mkdoc(schemas={**comps, **{k: v[0] for k, v in fam.items()}}), d / "structured")
+        if not g["exc"] and not g["rejected"]:
+            packages.append(d / "structured")
         for name, rdoc in c12.rich_documents().items():
             if name in ("rich", "baseline_openapi_3.1.yaml") or not quick:
                 pk = d / ("rich_" + "".join(ch if ch.isalnum() else "_" for ch in name))
